@@ -990,7 +990,7 @@ def compare_attr(case, obs, exp):
             and enc.get("type") == ty and enc.get("raw_type") == ty
         declared = canon[2] * 256 + canon[3]
         if not ok_paths or enc.get("length") != declared or enc.get("raw_len") != declared:
-            must.append((["C12", "C08"], "serialisation paths of the decoded value disagree with the canonical wire form: %s vs %s" % (
+            must.append((["C12", "C08"] + (["C13"] if ty == 32 else []), "serialisation paths of the decoded value disagree with the canonical wire form: %s vs %s" % (
                 json.dumps({k: enc.get(k) for k in ("length", "padded_len", "raw_len")}), canon[:16])))
         ws = enc.get("write_short", {})
         if len(canon) > 0 and not (ws.get("err") == "TooSmall" and ws.get("expected") == len(canon) and ws.get("actual") == len(canon) - 1 and ws.get("untouched") is True):
